@@ -1,5 +1,6 @@
 //! C12 cross-check on the real arena: every way of creating a chunk for a layout yields a chunk in which that layout
 //! can be allocated without another base-allocator call; the chunk geometry equals the E-pure placement model.
+use crate::check;
 use crate::common::*;
 use bump_scope::alloc::Allocator;
 use bump_scope::settings::BumpAllocatorSettings;
@@ -27,10 +28,10 @@ where
             set_budget(0);
             check_geometry(&*bump, header_size, header_align);
             before_calls = calls();
-            assert!(bump.stats().count() == 1, "C12: with_capacity created more than one chunk");
+            check!(bump.stats().count() == 1, "C12: with_capacity created more than one chunk");
             let r = bump.allocate(layout);
-            assert!(r.is_ok(), "C12: the layout a Bump was created for (with_capacity) does not fit");
-            assert!(calls() == before_calls && bump.stats().count() == 1, "C12: allocating the with_capacity layout needed another chunk");
+            check!(r.is_ok(), "C12: the layout a Bump was created for (with_capacity) does not fit");
+            check!(calls() == before_calls && bump.stats().count() == 1, "C12: allocating the with_capacity layout needed another chunk");
                 }
         2 => {
             set_budget(1);
@@ -58,8 +59,8 @@ where
                 let _ = bump.allocate(Layout::from_size_align(rest, 1).unwrap());
             }
             let r = bump.allocate(l);
-            assert!(r.is_ok(), "C12: reserved bytes cannot be allocated");
-            assert!(calls() == before_calls, "C12: allocating reserved bytes called the base allocator");
+            check!(r.is_ok(), "C12: reserved bytes cannot be allocated");
+            check!(calls() == before_calls, "C12: allocating reserved bytes called the base allocator");
                 }
         _ => {
             set_budget(1);
@@ -82,13 +83,13 @@ where
                             return;
             }
             // exactly one chunk was created and it served the request
-            assert!(calls() == before_calls + 1, "C12: the slow path called the base allocator more than once");
-            assert!(bump.stats().count() == 2, "C12: the slow path did not create exactly one chunk");
+            check!(calls() == before_calls + 1, "C12: the slow path called the base allocator more than once");
+            check!(bump.stats().count() == 2, "C12: the slow path did not create exactly one chunk");
             check_geometry(&*bump, header_size, header_align);
             let p = addr(r.unwrap().cast());
             let c = bump.stats().current_chunk().unwrap();
-            assert!(p >= addr(c.content_start()) && p + layout.size() <= addr(c.content_end()), "C12: block is not inside the chunk that was created for it");
-            assert!(p % layout.align() == 0, "C12/C01: block misaligned");
+            check!(p >= addr(c.content_start()) && p + layout.size() <= addr(c.content_end()), "C12: block is not inside the chunk that was created for it");
+            check!(p % layout.align() == 0, "C12/C01: block misaligned");
                 }
     }
     kani::cover!(true, "END: harness ran to completion");
@@ -108,12 +109,12 @@ where
         kani::cover!(true, "[refused] the stub refused the chunk size");
         return;
     }
-    assert!(calls() == 1 && bump.stats().count() == 1, "C12: first allocation of an unallocated arena did not create exactly one chunk");
+    check!(calls() == 1 && bump.stats().count() == 1, "C12: first allocation of an unallocated arena did not create exactly one chunk");
     check_geometry(&*bump, header_size, header_align);
     let p = addr(r.unwrap().cast());
-    assert!(p % layout.align() == 0, "C12/C01: block misaligned");
+    check!(p % layout.align() == 0, "C12/C01: block misaligned");
     let c = bump.stats().current_chunk().unwrap();
-    assert!(p >= addr(c.content_start()) && p + layout.size() <= addr(c.content_end()), "C12: first block outside the chunk created for it");
+    check!(p >= addr(c.content_start()) && p + layout.size() <= addr(c.content_end()), "C12: first block outside the chunk created for it");
     kani::cover!(true, "END: harness ran to completion");
 }
 
@@ -126,17 +127,17 @@ where
     let c = bump.stats().big_to_small().next().unwrap();
     let (cs, ce, s, e) = (addr(c.chunk_start()), addr(c.chunk_end()), addr(c.content_start()), addr(c.content_end()));
     let size = ce - cs;
-    assert!(size % 16 == 0, "C12: chunk size not a multiple of 16");
-    assert!(cs % header_align == 0, "C12: chunk start not aligned for the header");
+    check!(size % 16 == 0, "C12: chunk size not a multiple of 16");
+    check!(cs % header_align == 0, "C12: chunk start not aligned for the header");
     if St::UP {
-        assert!(s == cs + header_size && e == ce, "C12: content range differs from the placement model (up)");
+        check!(s == cs + header_size && e == ce, "C12: content range differs from the placement model (up)");
     } else {
-        assert!(size % header_align == 0, "C12: chunk size not a multiple of the header alignment (down)");
-        assert!(s == cs && e == ce - header_size, "C12: content range differs from the placement model (down)");
+        check!(size % header_align == 0, "C12: chunk size not a multiple of the header alignment (down)");
+        check!(s == cs && e == ce - header_size, "C12: content range differs from the placement model (down)");
     }
     // the granted block covers the chunk
     let g = unsafe { LOG[grants() - 1] };
-    assert!(g.addr == cs && size >= g.requested && size <= g.granted, "C12: chunk does not fit the granted block");
+    check!(g.addr == cs && size >= g.requested && size <= g.granted, "C12: chunk does not fit the granted block");
 }
 
 macro_rules! h {
